@@ -272,15 +272,22 @@ def config_history_case(args):
         for step in range(rng.randint(3, 5)):
             ignore = rng.sample(rels, rng.randint(0, 2)) + (["legacy/*"] if rng.random() < 0.3 else [])
             depth = rng.choice([2, 3, 4, 6])
-            cfg = DEFAULT_CFG + f"nesting:\n  max_nesting_depth: {depth}\n" + ("ignore:\n" + "".join(f'  - "{p_}"\n' for p_ in ignore) if ignore else "")
+            # the list is carried by the configuration file or by a .thailintignore file (which is edited, created and removed
+            # between the runs like any other file)
+            in_file = rng.random() < 0.4
+            cfg = DEFAULT_CFG + f"nesting:\n  max_nesting_depth: {depth}\n" + ("ignore:\n" + "".join(f'  - "{p_}"\n' for p_ in ignore) if (ignore and not in_file) else "")
             (proj / ".thailint.yaml").write_text(cfg)
+            if in_file:
+                (proj / ".thailintignore").write_text("".join(p_ + "\n" for p_ in ignore))
+            else:
+                (proj / ".thailintignore").unlink(missing_ok=True)
             long_lived = sorted(tok(v) for v in Orchestrator(project_root=proj).lint_directory(proj))
             core._reset_singletons()
             fresh = sorted(tok(v) for v in Orchestrator(project_root=proj).lint_directory(proj))
             # leave the caches as a long-lived process would have them after the *first* of the two runs: run it again without reset
             core._reset_singletons()
             Orchestrator(project_root=proj).lint_directory(proj)
-            out["steps"].append({"ignore": ignore, "depth": depth, "same": long_lived == fresh, "n_long": len(long_lived), "n_fresh": len(fresh),
+            out["steps"].append({"ignore": ignore, "in_file": in_file, "depth": depth, "same": long_lived == fresh, "n_long": len(long_lived), "n_fresh": len(fresh),
                                  "extra": [x[:160] for x in long_lived if x not in fresh][:2], "missing": [x[:160] for x in fresh if x not in long_lived][:2]})
     except Exception as exc:  # noqa: BLE001
         out["errors"].append(f"{type(exc).__name__}: {exc}")
@@ -311,16 +318,18 @@ def run(tier: str, seed: int, st: core.ProofStatus) -> core.Result:
     for i, ch in enumerate(cfgh):
         res.evaluations += 1
         res.bump("config_history_steps", len(ch["steps"]))
+        for s0 in ch["steps"]:
+            res.bump("ignore list carried by", ".thailintignore" if s0.get("in_file") else "configuration file")
         if ch["errors"]:
             res.disagreements.append(core.Disagreement(case={"kind": "config-history", "index": i}, impl=ch["errors"], model=None, spec=None, property_fails=False, note=ch["errors"][0][:300]))
             continue
         bad = [(k, s_) for k, s_ in enumerate(ch["steps"]) if not s_["same"]]
         if bad:
             k, s_ = bad[0]
-            res.disagreements.append(core.Disagreement(case={"kind": "config-history", "steps": [{"ignore": x["ignore"], "depth": x["depth"]} for x in ch["steps"][: k + 1]]},
+            res.disagreements.append(core.Disagreement(case={"kind": "config-history", "steps": [{"ignore": x["ignore"], "in_thailintignore": x.get("in_file"), "depth": x["depth"]} for x in ch["steps"][: k + 1]]},
                                                        impl={"long_lived": s_["n_long"], "extra": s_["extra"], "missing": s_["missing"]}, model=None, spec={"fresh": s_["n_fresh"]},
                                                        property_fails=True,
-                                                       note=f"configuration step {k} (ignore {s_['ignore']}, max depth {s_['depth']}) in a process that linted the same root before: "
+                                                       note=f"configuration step {k} (ignore {s_['ignore']}{' in .thailintignore' if s_.get('in_file') else ''}, max depth {s_['depth']}) in a process that linted the same root before: "
                                                             f"{s_['n_long']} violations, a fresh process reports {s_['n_fresh']}"))
     drv = core.Driver()
     for i, h in enumerate(hist):
